@@ -68,7 +68,8 @@ def run(ctx):
     ctx.cov["rule"] = ("exact: SolverReplacement (default), SolverReplacement(auto_replace=False), SolverHybrid — rule-directed (definition after use, contradicting / "
                        "double definition, Not(b), replaced queries, branch) and random histories of length <= 30 quick / 120 thorough; approximate: "
                        "SolverHybrid with a sound stub as approximate side, SolverHybrid(exact=False) and SolverVSA over a range-constraint alphabet, "
-                       "n = 64 >= 2^bits so that a short answer claims completeness; non-trivial = >= 3 calls")
+                       "n = 64 >= 2^bits so that a short answer claims completeness; histories with add_replacement(variable, constant) on SolverReplacement "
+                       "run twice side by side, with and without their downsize() calls, answers compared; non-trivial = >= 3 calls")
     ctx.prove("ClaripyProofs.Props.C13", THEOREMS, driver_exe="driver_solver")
     workers = ctx.pick(4, 6)
     m = SC.run_jobs(ctx, jobs_exact(ctx), workers, corr=False, chunk_size=ctx.pick(12, 25))
@@ -101,6 +102,19 @@ def run(ctx):
         m4 = SC.run_jobs(ctx, jobs_exact(ctx, mult=3), workers, corr=False, chunk_size=30)
         SC.merge_cov(ctx, m4, "failing-input-search")
         fails += m4["fails"]
+    # user-level replacements (add_replacement of a variable no constraint mentions): no brute-force reading, but
+    # downsize() must not change any answer — two runs side by side, with and without the downsize calls
+    uni = L.Universe()
+    tw_ran = 0
+    for cls in ("SolverReplacement", "SolverReplacement:noauto"):
+        found, ran = L.twin_search(uni, ctx.rng, cls, "no-downsize", ctx.pick(16, 200), ctx.pick(14, 30))
+        tw_ran += ran
+        ctx.count(ran)
+        for f in found[:2]:
+            k, kind, why = f["fails"][0]
+            ctx.violation("C13/%s/%s/%s" % (cls, f["hist"][k]["op"], kind), "%s %s: %s" % (cls, f["hist"][k], why),
+                          {"cls": cls, "cfg": f["cfg"], "history": f["hist"], "twin": "no-downsize", "cut": 0})
+    ctx.cov.setdefault("input_distribution", {})["downsize-neutral(user replacements)"] = {"calls": tw_ran}
     seen, pick = set(), []
     for f in fails:
         kd = (f["cls"], f["hist"][f["fails"][0][0]]["op"], f["fails"][0][1])
